@@ -138,7 +138,8 @@ func runCheck(w *World, o *checkOpts, t0 time.Time) int {
 			var again []*Obligation
 			for _, ob := range jr.Obls {
 				st := ob.Result.Status
-				if (st == "timeout" || st == "unknown") && ob.Kind != "vacuity" && kf.open(o.property, ob.ID) == nil {
+				sweepable := ob.Kind == "safety" && ob.Cut && (ob.Label == "nil" || ob.Label == "typeassert") && jr.Contract != nil && jr.Contract.Abstracted
+				if (st == "timeout" || st == "unknown") && ob.Kind != "vacuity" && !sweepable && kf.open(o.property, ob.ID) == nil {
 					again = append(again, ob)
 				}
 			}
